@@ -53,8 +53,20 @@ def law_programs(G):
         r = inner.repeat(2)(jnp.where(u, 0.6, 0.1)) @ "r"
         return r
 
+    @G.gen
+    def scan_then_sites():
+        # a Scan followed by two more sites and a second Scan: the JOINT law needs every site to have its own randomness
+        c, zs = scan3(jnp.array(False), jnp.zeros(3)) @ "s"
+        a = flip(0.5) @ "a"
+        b = flip(0.5) @ "b"
+        c2, ys = G.Scan(step, length=G.const(2))(jnp.array(True), jnp.zeros(2)) @ "t"
+        return a
+
     B = (False, True)
     progs = []
+    progs.append(("scan-then-sites-then-scan", scan_then_sites, (), None,
+                  [dict(s=dict(z=np.array(o[:3])), a=np.array(o[3]), b=np.array(o[4]), t=dict(z=np.array(o[5:7]))) for o in itertools.product(B, repeat=7)],
+                  lambda c: np.concatenate([np.asarray(c["s"]["z"]), np.asarray(c["a"])[..., None], np.asarray(c["b"])[..., None], np.asarray(c["t"]["z"])], axis=-1)))
     progs.append(("scan-markov-chain", chain3, (), lambda c: tuple(np.asarray(c["s"]["z"]).T.tolist()) if False else None,
                   [dict(s=dict(z=np.array(o))) for o in itertools.product(B, repeat=3)], lambda c: c["s"]["z"]))
     progs.append(("vmap-lanes", lanes3, (), None,
@@ -167,3 +179,48 @@ def c01_modes(ctx):
             ctx.property_failure(None, f"{mode}: raised {type(ex).__name__}: {str(ex)[:160]}", case)
         ctx.case(sample=case, nontrivial_key=("modes", mode))
         ctx.count("modes:" + mode)
+
+
+def c01_mixed_cond(ctx, n_keys=4000):
+    """Known finding cond-mixed-shape-law (Lean witness C01_simulate_law_fails_on_mixed_cond): a Cond whose branches have
+    DIFFERENT address sets exposes the hidden branch's private addresses in get_choices(); they are not part of the density
+    assess computes, so the choice map is not distributed according to exp(assess)."""
+    import jax
+    import jax.numpy as jnp
+    import jax.random as jr
+    G = impl.load()
+    flip = G.flip
+
+    @G.gen
+    def tb():
+        return flip(0.5) @ "x"
+
+    @G.gen
+    def fb():
+        x = flip(0.5) @ "x"
+        y = flip(0.5) @ "y"
+        return x
+
+    cond = G.Cond(tb, fb)
+    case = {"kind": "mixed-cond-law", "program": "Cond({x}, {x, y}) with check=True", "keys": n_keys}
+    try:
+        keys = jr.split(jr.key(ctx.seed + 29), n_keys)
+        trs = jax.jit(jax.vmap(lambda k: G.seed(cond.simulate)(k, jnp.array(True))))(keys)
+        ch = trs.get_choices()
+        if "y" not in ch:
+            ctx.case(nontrivial_key=("mixed-cond",))
+            return          # hidden-only addresses are not exposed: nothing to report
+        both = float(np.mean(np.asarray(ch["x"]) & np.asarray(ch["y"])))
+        lp, _ = cond.assess({"x": jnp.array(True), "y": jnp.array(True)}, jnp.array(True))
+        p_assess = float(np.exp(float(lp)))
+        case.update({"freq_x1_y1": both, "exp_assess": p_assess})
+        se = math.sqrt(0.25 * 0.75 / n_keys)
+        if abs(both - p_assess) > 5.5 * se:
+            # the Lean model predicts frequency 1/4 against exp(assess) = 1/2
+            ctx.property_failure("cond-mixed-shape-law", f"Cond with branches of different address sets: P(choices = {{x:1, y:1}}) = {both:.3f} but exp(assess) = {p_assess:.3f}",
+                                 case, matches_asis=abs(both - 0.25) < 5.5 * se and abs(p_assess - 0.5) < 1e-4)
+    except Exception as ex:
+        impl.reset_handlers()
+        ctx.property_failure(None, f"mixed-shape Cond law check raised {type(ex).__name__}: {str(ex)[:160]}", case)
+    ctx.case(sample=case, nontrivial_key=("mixed-cond",))
+    ctx.count("law:mixed-cond")
